@@ -252,6 +252,8 @@ Definition step (cf : config) (st : state) (l : label) : state * list obs :=
   | SinkState s v => (set_sst ((s, v) :: sst st) st, [])
   | ClosePool => close_pool st
   | OpenPool =>
+      (* _OpenImpl: a pool that is already Closed refuses at once (no _Get, no connect) *)
+      if pstate st =? 4 then (st, [OOpenResult false]) else
       let '(g, st1, ob) := get cf None st in
       match g with
       | GSink s =>
